@@ -785,7 +785,11 @@ func (s *c03Side) do(i int, op c03Op, withBans bool) (r *c03Res) {
 		case "FromString":
 			tpl, err = set.FromString(op.Main)
 		case "FromBytes":
-			tpl, err = set.FromBytes([]byte(op.Main))
+			buf := []byte(op.Main)
+			tpl, err = set.FromBytes(buf)
+			if withBans {
+				reuseBuffer(buf) // (not on the twin's side: an engine that keeps the caller's memory diverges)
+			}
 		case "FromFile":
 			tpl, err = set.FromFile(op.MainName)
 		case "FromCache":
